@@ -28,6 +28,16 @@ def generate(rnd, n):
     v = ugen.Vocab()
     ug = ugen.UnitGen(v, rnd, maxpow=3)
     out = []
+    same_kind = [ks for ks in v.by_dims.values() if len(ks) >= 2]
+    for _ in range(n // 12):
+        # ratios of units of one kind on both sides: nothing is left of the dimensions, everything of the factors
+        g1, g2 = rnd.choice(same_kind), rnd.choice(same_kind)
+        k1, k2 = rnd.sample(g1, 2)
+        k3, k4 = (rnd.sample(g2, 2) if g2 is not g1 else rnd.sample(g1, 2))
+        if len({k1, k2, k3, k4}) < 4:
+            continue
+        w = [ug.term(k, 1)[0] for k in (k1, k2, k3, k4)]
+        out.append("%s %s/%s to %s/%s" % (ugen.magnitude(rnd), w[0], w[1], w[2], w[3]))
     for _ in range(n):
         a = ug.expr()
         b = ug.respell(a)
